@@ -256,6 +256,9 @@ func (fr *Frame) extendHeaps(s *State, heaps map[string]string, oldNext string) 
 		srt := heaps[hn]
 		cur := s.heap(hn, srt)
 		nh := fr.vc.declare(sanitizeSym(hn)+"_ext", srt)
+		if ax := fr.eng.heapWellTyped(hn, nh); ax != "" {
+			fr.eng.syms.syms[nh].Text += ax
+		}
 		fr.vc.heapSort[hn] = srt
 		s.assume(fmt.Sprintf("(forall ((r Int)) (! (=> (< r %s) (= (select %s r) (select %s r))) :pattern ((select %s r))))", oldNext, nh, cur, nh))
 		s.heaps[hn] = nh
